@@ -124,13 +124,17 @@ func buildProvider(c Cell) (core.Provider, string, error) {
 		path = vkit.WriteMem(scenarioYAML(c.Kind == "grpc/scenario", c.Entries)) + ".yaml"
 		_ = vkit.Fs().Rename(strings.TrimSuffix(path, ".yaml"), path)
 		conf = map[string]any{"type": c.Kind, "file": path}
-	case "json":
+	case "json", "json-queue2":
 		var b strings.Builder
 		for i := 0; i < c.Entries; i++ {
 			fmt.Fprintf(&b, `{"k": %d}`+"\n", i)
 		}
 		path = vkit.WriteMem([]byte(b.String()))
 		conf = map[string]any{"type": "json", "source": map[string]any{"type": "file", "path": path}}
+		if c.Kind == "json-queue2" {
+			// a queue of two: the provider finds its queue full most of the time, whatever the limit
+			conf["ammo-queue-size"] = 2
+		}
 	case "json-padded":
 		// a file of exactly 2×4096+1 bytes read through a 4 KiB buffer: the last chunk the decoder
 		// sees before each end of file is the final newline alone
@@ -417,7 +421,7 @@ func runEngine(res *vkit.Result, c Cell, p core.Provider, exp int, watchdog time
 	return ""
 }
 
-var kinds = []string{"uri", "uripost", "raw", "jsonline-lines", "jsonline-array", "grpc/json", "http/scenario", "grpc/scenario", "json", "json-inline", "json-padded"}
+var kinds = []string{"uri", "uripost", "raw", "jsonline-lines", "jsonline-array", "grpc/json", "http/scenario", "grpc/scenario", "json", "json-inline", "json-padded", "json-queue2"}
 
 func cells(kind string) []Cell {
 	var out []Cell
